@@ -5,37 +5,47 @@ Parse / Meaning; the programs behind the option layer), spec/CmdLineCases.tla (o
 spec/CmdLine_MC.tla (invariants), spec/CmdLine_Gen.tla (cases).  This file renders the cases TLC prints into real
 invocations, tokenises what the programs did and compares it with what TLC printed as expectation.
 
-(M) TLC, every sequence of <= MaxOcc occurrence templates in every placement (command line with the source first or
-    last, environment variable, key file named on the command line / in the variable / written on one line, split
-    environment | command line, one occurrence moved into a key file in place):
+(M) TLC, every sequence of <= MaxOcc occurrence templates in every placement (command line with the file arguments
+    first or last, environment variable, key file named on the command line / in the variable / written on one line
+    with blanks, with tabs, with a tab and then blanks, split environment | command line, one occurrence moved into
+    a key file in place):
       ScanIsFold         the scanner with the named deviations repaired = Meaning(Parse(Flatten(I))) on every input
                          the manual decides
       DeviationsAreNamed wherever the scanner as coded differs from that, a named deviation is live
       PlaceNeverMatters  the scanner as coded gives equal results for placements that parse to the same occurrences
       EnvBeforeArgv, ErrorIsFinal
-    quick: asl 42 templates <= 2 (1807 sequences), p2bin 21 templates <= 2, plist 10 templates <= 2;
-    thorough: asl all <= 3 (75 895) and the 19-template core alphabet <= 4 (137 561), p2bin <= 3, plist <= 4.
-(G) every printed case is run: asl on a probe source that shows the effective configuration in its code file (header
-    byte = -cpu, symbols A / a / B read back as data = -D and -U, which inc.inc was found = -i, file names = -o, a
-    second source = file arguments), in its outputs (listing file / console listing = -L / -l, debug file = -g,
-    banner = -q, extended messages = -x) and in its exit status; p2bin and plist against a reference run of the
-    configuration TLC expects, spelled canonically on a plain command line.
+    quick: asl 42 templates <= 2 (1807 sequences), p2bin 21 templates <= 2 (463), plist 10 templates <= 2 (111);
+    thorough: asl all <= 3 (75 895) and the 14-template core alphabet <= 4 (41 371), p2bin <= 3 (9 724), plist <= 4.
+(G) every printed case is run (quick about 8 500, thorough about 70 000 distinct invocations): asl on a probe source
+    that shows the effective configuration in its code file (header byte = -cpu, symbols A / a / B read back as data =
+    -D and -U, which inc.inc was found = -i, file names = -o, a second source = file arguments), in its outputs
+    (listing file / console listing = -L / -l, debug file = -g, banner = -q, extended messages = -x) and in its exit
+    status; p2bin and plist against a reference run of the configuration TLC expects, spelled canonically on a plain
+    command line.  Besides the template sequences: no parameter at all (help text, status 1, ASCMD not even read) and
+    256 / 257 / 300 / 1500 parameters (size of the Unprocessed[] mask).
     Verdict-bearing (rep.violation): the components of the expectation that doc/ states and where the manual's
     reading agrees with the scanner as coded (`bearing`, computed by TLC): exit status 4 (asl) / 1 (utilities) and
-    nothing produced after a parameter error, names and contents of the code files, listing / debug file / banner /
-    message level; and the C17 clause itself: all inputs of one klass (the same occurrences given on the command
-    line, in ASCMD, in a key file, mixed) leave byte-identical code files.  Everything else the model predicts
-    (include search order, what happens where the manual is silent: combined letters with arguments, +l of p2bin,
-    -q -q +q, a second -D of a name, file names in P2BINCMD) is compared too, a difference is a SPEC-DRIFT.
+    nothing produced after a parameter error, status 1 without parameters, names and contents of the code files,
+    listing / debug file / banner / message level; the C17 clause itself: all inputs of one klass (the same
+    occurrences given on the command line, in ASCMD, in a key file, mixed) leave byte-identical code files; and no
+    abnormal end.  Everything else the model predicts (include search order, what happens where the manual is
+    silent: combined letters with arguments, +l of p2bin, -q -q +q, a second -D of a name, file names in P2BINCMD,
+    tabs in key files) is compared too, a difference is a SPEC-DRIFT.
+Named deviations of the pinned code (CmdLine.tla AllDevs; the model of "the code as it is" contains exactly those not
+recorded as fixed in known_findings/*.json, field "dev"): QuietCounter, DefFirstWins, ToolFilesArgv, BlankBeforeTab
+(manual silent: recorded, no verdict), and three findings with proposed fixes and known_findings/C17-cmdline.json:
+  IncRemoveWipes  `+i <dir>` empties the whole include path (asmsub.c RemoveIncludeList, swapped strmaxcpy arguments)
+  EmptyNumberOK   p2bin -l / -e, p2hex -R / -e take a missing argument as 0 and drop the next parameter
+  MaskOverflow    more than 256 parameters overflow Unprocessed[] (p2bin: SIGSEGV with 1500 parameters)
+`VERIF_CMDLINE_FIXED=<dev,...>` treats deviations as repaired (for trying a proposed fix on a scratch copy).
 Bounds: <= 2 occurrences (quick) / <= 3 (thorough, core alphabet) replayed; argument texts are the handful of
 CmdLine.tla (DefParts, PathParts, KnownCPU ...); one key file level (nesting is an error by the manual); no `/`
-switches (SLASHARGS is a DOS build option), no wildcards, no interactive prompt (stdin is empty).
-Finding: `+i <dir>` empties the whole include path (asmsub.c RemoveIncludeList copies an uninitialised buffer over
-the list) - deviation IncRemoveWipes, proposed_fixes/C17-remove-include-path.diff, known_findings/C17-cmdline.json.
-Mutations of the real code tried (scratch copies, `VERIF_REPO=... ./check C17`), all reported by the quick tier:
-cmdarg.c ProcessCMD processing argv before the environment variable; DecodeLine not skipping the consumed argument
-(z++ dropped); ParamError of as.c leaving with exit(2); ProcessParam matching whole words case-sensitively;
-AddToOutList putting new names in front.
+switches (SLASHARGS is a DOS build option), no wildcards (the shell expands them on Unix), no interactive prompt
+(stdin is empty), plist without parameters (it prompts) not modelled.
+Mutations of the real code tried (scratch copies, all pass the 201 golden tests; `VERIF_REPO=... ./check C17` exits
+1 for each): cmdarg.c ProcessCMD scanning argv before the environment variable; DecodeLine not skipping the consumed
+argument (z++ dropped); as.c ParamError leaving with exit(2); ProcessParam not blanking a look-ahead that starts with
+`+`; asmsub.c AddToOutList putting new names in front.
 """
 import glob
 import json
@@ -45,7 +55,9 @@ import re
 from vlib import cmdrun, codefile, tlc, utilrun
 from vlib.common import CheckError, Phase, VERIF, log, subdir
 
-ALLDEVS = ["QuietCounter", "DefFirstWins", "IncRemoveWipes", "ToolFilesArgv", "EmptyNumberOK"]
+ALLDEVS = ["QuietCounter", "DefFirstWins", "IncRemoveWipes", "ToolFilesArgv", "EmptyNumberOK", "MaskOverflow", "BlankBeforeTab"]
+UNDEFINED = 99                        # CmdLine.tla Undefined: out-of-bounds writes, nothing is predicted
+PLACE_SENSITIVE = {"ToolFilesArgv", "EmptyNumberOK", "BlankBeforeTab", "MaskOverflow"}   # CmdLine_MC NoFileDev: not covered by PlaceNeverMatters
 DEFECTS = {"IncRemoveWipes", "EmptyNumberOK"}          # deviations that contradict the manual (the others: the manual is silent)
 INVS = "ScanIsFold DeviationsAreNamed PlaceNeverMatters EnvBeforeArgv ErrorIsFinal"
 ENVNAME = {"asl": "ASCMD", "p2bin": "P2BINCMD", "plist": "PLISTCMD"}
@@ -125,7 +137,7 @@ def make_job(case):
     prog = case["prog"]
     files = dict(ASL_FILES) if prog == "asl" else _tool_files()
     for k, lines in case["keys"].items():
-        files[k] = "".join(" ".join(ln) + "\n" for ln in lines)
+        files[k] = "".join(ln + "\n" for ln in lines)
     env = {}
     if case["env"]:
         env[ENVNAME[prog]] = " ".join(case["env"])
@@ -191,15 +203,25 @@ def outs_equal(expd, obsd):
 
 
 def _files_of(case, res):
-    return {"argv.txt": " ".join(case["argv"]), "env.txt": json.dumps({ENVNAME[case["prog"]]: " ".join(case["env"])} if case["env"] else {}),
+    return {"argv": case["prog"] + " " + " ".join(case["argv"][:300]),            # names read by checks/c17.py replay()
+            "env": json.dumps({ENVNAME[case["prog"]]: " ".join(case["env"])} if case["env"] else {}),
             "keys.json": json.dumps(case["keys"]), "stdout.txt": res["out"][-3000:], "stderr.txt": res["err"][-3000:],
-            "case.json": json.dumps(case, sort_keys=True)}
+            "case.json": json.dumps(_brief(case), sort_keys=True)}
+
+
+def _abkey(case):
+    return {"kind": "cmdline-abnormal", "prog": case["prog"], "dev": "MaskOverflow" if "MaskOverflow" in case["live"] else "-"}
+
+
+def _brief(case):
+    return case if len(case["argv"]) < 20 else dict(case, argv=case["argv"][:4] + ["..."], klass="...")
 
 
 def _say(case):
     e = (ENVNAME[case["prog"]] + "='" + " ".join(case["env"]) + "' ") if case["env"] else ""
-    k = "".join(" %s=[%s]" % (n, " / ".join(" ".join(l) for l in ls)) for n, ls in sorted(case["keys"].items()) if n != "kd")
-    return "%s%s %s%s" % (e, case["prog"], " ".join(case["argv"]), k)
+    k = "".join(" %s=[%s]" % (n, " / ".join(l.replace("\t", "<TAB>") for l in ls)) for n, ls in sorted(case["keys"].items()) if n != "kd")
+    argv = case["argv"] if len(case["argv"]) < 20 else case["argv"][:4] + ["... (%d parameters)" % len(case["argv"])]
+    return "%s%s %s%s" % (e, case["prog"], " ".join(argv), k)
 
 
 # ---- judging against what TLC printed --------------------------------------------------------------------------
@@ -207,14 +229,16 @@ def judge_asl(rep, case, res, st):
     exp, bearing = case["exp"], set(case["bearing"])
     if res["timeout"] or res["sig"] is not None:
         rep.violation("asl ended abnormally (signal %s, timeout %s): %s" % (res["sig"], res["timeout"], _say(case)),
-                      case=case, files=_files_of(case, res), key={"kind": "cmdline-abnormal", "prog": "asl"})
+                      case=_brief(case), files=_files_of(case, res), key=_abkey(case))
+        return None
+    if exp["status"] == UNDEFINED:
         return None
     obs = observe_asl(res)
     diffs = []
     if obs["status"] != exp["status"]:
         diffs.append(("status", "exit status %s, expected %s" % (obs["status"], exp["status"])))
-    if exp["status"] == 4 and res["new"]:
-        diffs.append(("status", "parameter error, but files were produced: %s" % sorted(res["new"])))
+    if exp["status"] in (1, 4) and res["new"]:
+        diffs.append(("status", "%s, but files were produced: %s" % ("parameter error" if exp["status"] == 4 else "help only", sorted(res["new"]))))
     if not outs_equal(expected_outs(exp), obs["outs"]) or obs["junk"]:
         diffs.append(("outs", "code files %s (unreadable: %s), expected %s" % (json.dumps(obs["outs"], sort_keys=True), obs["junk"],
                                                                                json.dumps(expected_outs(exp), sort_keys=True))))
@@ -245,7 +269,9 @@ def judge_tool(rep, case, res, ref, st):
     prog, exp, bearing = case["prog"], case["exp"], set(case["bearing"])
     if res["timeout"] or res["sig"] is not None:
         rep.violation("%s ended abnormally (signal %s, timeout %s): %s" % (prog, res["sig"], res["timeout"], _say(case)),
-                      case=case, files=_files_of(case, res), key={"kind": "cmdline-abnormal", "prog": prog})
+                      case=_brief(case), files=_files_of(case, res), key=_abkey(case))
+        return
+    if exp["status"] == UNDEFINED:
         return
     diffs = []
     if exp["status"] == 1:
@@ -281,27 +307,38 @@ def judge_tool(rep, case, res, ref, st):
 def run(rep, bld, tier):
     fixed = repaired()
     quick = tier == "quick"
-    gens = ([("asl", 2, "all", 1), ("p2bin", 2, "all", 1), ("plist", 2, "all", 0)] if quick else
-            [("asl", 2, "all", 0), ("asl", 3, "core", 1), ("p2bin", 3, "all", 1), ("plist", 3, "all", 0)])
+    gens = ([("asl", 2, "all", 2), ("p2bin", 2, "all", 3), ("plist", 2, "all", 0)] if quick else
+            [("asl", 2, "all", 0), ("asl", 3, "core", 3), ("p2bin", 3, "all", 2), ("plist", 3, "all", 0)])
     mcs = [] if quick else [("asl", 3, "all"), ("asl", 4, "core"), ("plist", 4, "all")]
-    cases = []
-    for (prog, n, alpha, thin) in gens:
-        name = "CmdLine_Gen(%s,<=%d,%s)" % (prog, n, alpha)
-        with Phase("TLC %s" % name):
-            r = tlc.must(tlc.run("CmdLine_Gen", _cfg("gen_%s_%d_%s.cfg" % (prog, n, alpha), fixed, prog, n, alpha, thin),
-                                 workers=4, timeout=1500, mem="6g", tags=("TR",)), name)
-        if r.violation:
-            raise CheckError("%s: the option-layer model violates its own invariant: %s" % (name, r.violation[:1200]))
-        rep.model(name, r)
-        cases += [c for (_, c) in r.printed]
-    for (prog, n, alpha) in mcs:
+
+    def mc(job):
+        (prog, n, alpha) = job
         name = "CmdLine_MC(%s,<=%d,%s)" % (prog, n, alpha)
         with Phase("TLC %s" % name):
             r = tlc.must(tlc.run("CmdLine_MC", _cfg("mc_%s_%d_%s.cfg" % (prog, n, alpha), fixed, prog, n, alpha),
                                  workers=4, timeout=2400, mem="6g", collect=False), name)
+        return name, r
+
+    import concurrent.futures as cf
+    mcpool = cf.ThreadPoolExecutor(max_workers=2)          # the deep model checks run beside generation and replay
+    mcfuts = [mcpool.submit(mc, j) for j in mcs]
+    cases = []
+
+    def gen(job):
+        (prog, n, alpha, thin) = job
+        name = "CmdLine_Gen(%s,<=%d,%s)" % (prog, n, alpha)
+        with Phase("TLC %s" % name):
+            r = tlc.must(tlc.run("CmdLine_Gen", _cfg("gen_%s_%d_%s.cfg" % (prog, n, alpha), fixed, prog, n, alpha, thin),
+                                 workers=4 if prog == "asl" else 2, timeout=1500, mem="6g", tags=("TR",)), name)
+        return name, r
+
+    with cf.ThreadPoolExecutor(max_workers=3 if quick else 2) as ex:          # the generator runs are independent
+        done = list(ex.map(gen, gens))
+    for name, r in done:
         if r.violation:
             raise CheckError("%s: the option-layer model violates its own invariant: %s" % (name, r.violation[:1200]))
         rep.model(name, r)
+        cases += [c for (_, c) in r.printed]
     # distinct inputs only (the thinned and the full placements overlap between generator runs)
     seen, uniq = set(), []
     for c in cases:
@@ -315,7 +352,7 @@ def run(rep, bld, tier):
     # reference runs of the utilities: the expected configuration on a plain command line
     refs = {}
     for c in cases:
-        if c["prog"] != "asl" and c["exp"]["status"] != 1:
+        if c["prog"] != "asl" and c["exp"]["status"] == 0:
             a = canonical(c["prog"], c["exp"])
             refs.setdefault((c["prog"], tuple(a)), None)
     refkeys = sorted(refs)
@@ -335,11 +372,11 @@ def run(rep, bld, tier):
             live[d] = live.get(d, 0) + 1
         if c["prog"] == "asl":
             obs = judge_asl(rep, c, res, st)
-            if obs is not None and not c["open"]:
+            if obs is not None and not c["open"] and not (PLACE_SENSITIVE & set(c["live"])):
                 code = {n: v for n, v in res["new"].items() if v[:2] == codefile.MAGIC}
                 klass.setdefault(json.dumps(c["klass"], sort_keys=True), []).append((c, res, code))
         else:
-            ref = refs.get((c["prog"], tuple(canonical(c["prog"], c["exp"])))) if c["exp"]["status"] != 1 else None
+            ref = refs.get((c["prog"], tuple(canonical(c["prog"], c["exp"])))) if c["exp"]["status"] == 0 else None
             judge_tool(rep, c, res, ref, st)
     # C17: the place an option is given never alters the code file
     groups = 0
@@ -352,9 +389,16 @@ def run(rep, bld, tier):
             if code != code0 or r["rc"] != r0["rc"]:
                 rep.violation("the place an option is given alters the outcome: [%s] -> exit %s, code files %s; [%s] -> exit %s, code files %s"
                               % (_say(c0), r0["rc"], sorted(code0), _say(c), r["rc"], sorted(code)), case={"a": c0, "b": c},
-                              files=dict([("a." + n, v) for n, v in _files_of(c0, r0).items()] + [("b." + n, v) for n, v in _files_of(c, r).items()]),
+                              files=dict([("a." + n, v) for n, v in _files_of(c0, r0).items()] + [("b." + n, v) for n, v in _files_of(c, r).items()] +
+                                         [("argv", _say(c0) + "\n" + _say(c)), ("env", "{}")]),
                               key={"kind": "cmdline-place", "prog": "asl"})
                 break
+    for f in mcfuts:
+        name, r = f.result()
+        if r.violation:
+            raise CheckError("%s: the option-layer model violates its own invariant: %s" % (name, r.violation[:1200]))
+        rep.model(name, r)
+    mcpool.shutdown()
     rep.traces(len(cases))
     rep.part("ext_cmdline", cases=len(cases), reference_runs=len(refkeys), klasses_compared=groups, repaired=fixed,
              deviations_live=live, drift=st["drift"], manual_contradicted=st["defect"])
